@@ -6,15 +6,20 @@ cd "$(dirname "$0")"
 export GOFLAGS=-mod=mod GOPROXY=off GOSUMDB=off GOTOOLCHAIN=local
 mkdir -p bin evidence replays .work
 (cd src && go build -o ../bin/vsrewrite ./cmd/vsrewrite && go build -o ../bin/vcheck ./cmd/vcheck)
-# warm: virtualise the tree once and build every harness
-H=$(mktemp -d .work/setup-XXXX)
+# warm: virtualise the tree once and build every harness, and the two programs the black-box rig runs
+H=.work/setup-$$
+mkdir -p "$H"
 if bin/vsrewrite -out "$PWD/$H/rw" >"$H/rw.log" 2>&1; then
   for d in harness/*/; do
     n=$(basename "$d")
     (cd /repo && go build -overlay "/verif/$H/rw/overlay.json" -o /dev/null "./zz_verif/h/$n" >>"/verif/$H/build.log" 2>&1) || echo "setup: harness $n did not build (see $H/build.log)"
   done
 else
-  echo "setup: virtualisation failed (see $H/rw.log)"; cat "$H/rw.log" | tail -5
+  echo "setup: virtualisation failed:"; tail -5 "$H/rw.log"
 fi
+if bin/vsrewrite -norewrite -out "$PWD/$H/plain" >>"$H/rw.log" 2>&1; then
+  (cd /repo && go build -overlay "/verif/$H/plain/overlay.json" -o /dev/null ./zz_verif/h/bbox >>"/verif/$H/build.log" 2>&1) || true
+fi
+(cd /repo && go build -o /dev/null ./server && go build -o /dev/null ./agent) || true
 rm -rf "$H"
 echo "setup done"
